@@ -151,28 +151,42 @@ def check(spec, mode):
             dirty.append(z3.Xor(fin[rq], z3.Xor(init[rq], env["_ret"])))
             names.append(("ret", rq))
         if dirty:
-            v = st.check(s, z3.Or(*dirty))
-            if v == "sat":
-                m = s.model()
-                extra = None
-                if mode == "C06":
-                    yv = z3.is_true(m.eval(z3.Bool("__y"), model_completion=True))
-                    extra = {qc.qubit_map["_ret"]: yv}
-                asg, bits, out, want = replay(m, extra)
-                bad_in = [i for i in range(n_in) if out[i] != bits[i] and not (i in outq and mode == "C03")]
-                bad_sc = [i for i in range(n_in, qc.num_qubits) if i not in outq and out[i]]
-                if bad_in:
-                    res["findings"].append({"kind": "input-changed", "what": "input %s%s: input qubits %s changed" % (asg, (" y=%s" % extra) if extra else "", bad_in), "cex": {"inputs": asg, "extra": extra}, "replayed": True})
-                if bad_sc:
-                    res["findings"].append({"kind": "dirty-qubit", "what": "input %s%s: scratch qubits %s left at 1" % (asg, (" y=%s" % extra) if extra else "", bad_sc), "cex": {"inputs": asg, "extra": extra}, "replayed": True})
-                if mode == "C06":
-                    rq = qc.qubit_map["_ret"]
-                    if out[rq] != (bits[rq] ^ want["_ret"]):
-                        res["findings"].append({"kind": "not-xor", "what": "input %s y=%s: _ret qubit ends %s, expected y^f = %s" % (asg, bits[rq], out[rq], bits[rq] ^ want["_ret"]), "cex": {"inputs": asg, "extra": extra}, "replayed": True})
-                if not res["findings"]:
-                    res.update(status="inconclusive", note="counterexample did not reproduce")
-            elif v != "unsat":
-                res.update(status="inconclusive", note="solver: " + v)
+            # one query per kind of violation, so that the set of reported kinds does not depend
+            # on which model the solver happens to return
+            groups = {"input-changed": [], "dirty-qubit": [], "not-xor": []}
+            for (k, i), d in zip(names, dirty):
+                groups[{"input": "input-changed", "scratch": "dirty-qubit", "ret": "not-xor"}[k]].append((i, d))
+            v = "unsat"
+            for kind, lst in groups.items():
+                if not lst:
+                    continue
+                vk = st.check(s, z3.Or(*[d for _, d in lst]))
+                if vk == "sat":
+                    v = "sat"
+                    m = s.model()
+                    extra = None
+                    if mode == "C06":
+                        yv = z3.is_true(m.eval(z3.Bool("__y"), model_completion=True))
+                        extra = {qc.qubit_map["_ret"]: yv}
+                    asg, bits, out, want = replay(m, extra)
+                    ytxt = (" y=%s" % bits[qc.qubit_map["_ret"]]) if mode == "C06" else ""
+                    if kind == "input-changed":
+                        bad = [i for i, _ in lst if out[i] != bits[i]]
+                        msg = "input %s%s: input qubits %s changed" % (asg, ytxt, bad)
+                    elif kind == "dirty-qubit":
+                        bad = [i for i, _ in lst if out[i]]
+                        msg = "input %s%s: scratch qubits %s left at 1" % (asg, ytxt, bad)
+                    else:
+                        rq = qc.qubit_map["_ret"]
+                        bad = [rq] if out[rq] != (bits[rq] ^ want["_ret"]) else []
+                        msg = "input %s%s: _ret qubit ends %s, expected y^f = %s" % (asg, ytxt, out[rq], bits[rq] ^ want["_ret"])
+                    if bad:
+                        res["findings"].append({"kind": kind, "what": msg, "cex": {"inputs": asg, "extra": extra}, "replayed": True})
+                    else:
+                        res.update(status="inconclusive", note="counterexample for %s did not reproduce" % kind)
+                elif vk != "unsat":
+                    v = vk
+                    res.update(status="inconclusive", note="solver: " + vk)
             if v == "unsat" and (int(item_id(spec), 16) % 4 == 0) and len(qc.gates) > 1:
                 # sensitivity: drop the last gate whose target is not an output -> dirty
                 idx = [i for i, (g, w, p) in enumerate(qc.gates) if w and w[-1] not in outq]
